@@ -185,12 +185,16 @@ impl GraphEngine {
     /// Note: This MVP does not backfill existing data. The index will only track
     /// valid data inserted *after* index creation.
     pub fn create_index(&self, label: &str, field: &str) -> Result<()> {
+        #[cfg(nervusdb_verif)]
+        let _vh1 = crate::verif::acquire("index_catalog");
         let mut catalog = self.index_catalog.lock().unwrap();
         let name = format!("{}.{}", label, field);
         if catalog.get(&name).is_some() {
             return Ok(());
         }
 
+        #[cfg(nervusdb_verif)]
+        let _vh2 = crate::verif::acquire("pager");
         let mut pager = self.pager.write().unwrap();
         catalog.get_or_create(&mut pager, &name)?;
         catalog.flush(&mut pager)?;
@@ -198,15 +202,23 @@ impl GraphEngine {
     }
 
     pub fn begin_read(&self) -> Snapshot {
+        #[cfg(nervusdb_verif)]
+        crate::verif::touch("published_runs");
         let runs = self.published_runs.read().unwrap().clone();
         #[cfg(nervusdb_verif)]
         crate::verif::point("snap.runs");
+        #[cfg(nervusdb_verif)]
+        crate::verif::touch("published_segments");
         let segments = self.published_segments.read().unwrap().clone();
         #[cfg(nervusdb_verif)]
         crate::verif::point("snap.segments");
+        #[cfg(nervusdb_verif)]
+        crate::verif::touch("published_labels");
         let labels = self.published_labels.read().unwrap().clone();
         #[cfg(nervusdb_verif)]
         crate::verif::point("snap.labels");
+        #[cfg(nervusdb_verif)]
+        crate::verif::touch("published_node_labels");
         let node_labels = self.published_node_labels.read().unwrap().clone();
         #[cfg(nervusdb_verif)]
         crate::verif::point("snap.node_labels");
@@ -223,11 +235,15 @@ impl GraphEngine {
     }
 
     pub fn begin_write(&self) -> WriteTxn<'_> {
+        #[cfg(nervusdb_verif)]
+        let verif_held = crate::verif::acquire("write_lock");
         let guard = self.write_lock.lock().unwrap();
         let txid = self.next_txid.fetch_add(1, Ordering::Relaxed);
         WriteTxn {
             engine: self,
             _guard: guard,
+            #[cfg(nervusdb_verif)]
+            _verif_held: verif_held,
             txid,
             created_nodes: Vec::new(),
             pending_label_additions: Vec::new(),
@@ -247,6 +263,8 @@ impl GraphEngine {
     pub fn get_or_create_label(&self, name: &str) -> Result<LabelId> {
         // Optimistic read
         {
+            #[cfg(nervusdb_verif)]
+            let _vh4 = crate::verif::acquire("label_interner");
             let interner = self.label_interner.lock().unwrap();
             if let Some(id) = interner.get_id(name) {
                 return Ok(id);
@@ -256,6 +274,8 @@ impl GraphEngine {
         // Write path: serialize with a lock or just rely on interner lock?
         // We need to write to WAL, so let's handle it carefully.
         // We'll just lock interner, check again, then write WAL, then update interner.
+        #[cfg(nervusdb_verif)]
+        let _vh5 = crate::verif::acquire("label_interner");
         let mut interner = self.label_interner.lock().unwrap();
         if let Some(id) = interner.get_id(name) {
             return Ok(id);
@@ -271,6 +291,8 @@ impl GraphEngine {
         // We wrap this in a mini-transaction to ensure replayability.
         {
             let txid = self.next_txid.fetch_add(1, Ordering::Relaxed);
+            #[cfg(nervusdb_verif)]
+            let _vh6 = crate::verif::acquire("wal");
             let mut wal = self.wal.lock().unwrap();
             wal.append(&WalRecord::BeginTx { txid })?;
             wal.append(&WalRecord::CreateLabel {
@@ -285,6 +307,8 @@ impl GraphEngine {
 
         // Update Published Snapshot
         let snapshot = interner.snapshot();
+        #[cfg(nervusdb_verif)]
+        let _vh7 = crate::verif::acquire("published_labels");
         let mut published = self.published_labels.write().unwrap();
         *published = Arc::new(snapshot);
 
@@ -295,6 +319,8 @@ impl GraphEngine {
     /// Should be called after write transactions that create nodes.
     fn update_published_node_labels(&self) {
         let snapshot = read_i2l_snapshot(&self.idmap);
+        #[cfg(nervusdb_verif)]
+        let _vh8 = crate::verif::acquire("published_node_labels");
         let mut published = self.published_node_labels.write().unwrap();
         *published = Arc::new(snapshot);
     }
@@ -317,8 +343,14 @@ impl GraphEngine {
     // T203: HNSW Public API
     pub fn insert_vector(&self, id: InternalNodeId, vector: Vec<f32>) -> Result<()> {
         // Lock order as in commit/create_index: catalog before pager.
+        #[cfg(nervusdb_verif)]
+        let _vh9 = crate::verif::acquire("index_catalog");
         let mut catalog = self.index_catalog.lock().unwrap();
+        #[cfg(nervusdb_verif)]
+        let _vh10 = crate::verif::acquire("pager");
         let mut pager = self.pager.write().unwrap();
+        #[cfg(nervusdb_verif)]
+        let _vh11 = crate::verif::acquire("vector_index");
         let mut idx = self.vector_index.lock().unwrap();
         let inserted = idx.insert(&mut *pager, id, vector);
 
@@ -337,7 +369,11 @@ impl GraphEngine {
     }
 
     pub fn search_vector(&self, query: &[f32], k: usize) -> Result<Vec<(InternalNodeId, f32)>> {
+        #[cfg(nervusdb_verif)]
+        let _vh12 = crate::verif::acquire("pager");
         let mut pager = self.pager.write().unwrap();
+        #[cfg(nervusdb_verif)]
+        let _vh13 = crate::verif::acquire("vector_index");
         let mut idx = self.vector_index.lock().unwrap();
         idx.search(&mut *pager, query, k)
     }
@@ -347,6 +383,8 @@ impl GraphEngine {
     }
 
     fn publish_run(&self, run: Arc<L0Run>) {
+        #[cfg(nervusdb_verif)]
+        let _vh14 = crate::verif::acquire("published_runs");
         let mut current = self.published_runs.write().unwrap();
         let mut next = Vec::with_capacity(current.len() + 1);
         next.push(run);
@@ -360,8 +398,12 @@ impl GraphEngine {
     /// - Writes CSR segment pages to `.ndb` and fsyncs before publishing the manifest in WAL.
     /// - Writes `ManifestSwitch` + `Checkpoint` as a committed WAL tx to make the switch atomic.
     pub fn compact(&self) -> Result<()> {
+        #[cfg(nervusdb_verif)]
+        let _vh15 = crate::verif::acquire("write_lock");
         let _guard = self.write_lock.lock().unwrap();
 
+        #[cfg(nervusdb_verif)]
+        crate::verif::touch("published_runs");
         let runs = self.published_runs.read().unwrap().clone();
 
         if runs.is_empty() {
@@ -374,6 +416,8 @@ impl GraphEngine {
         let mut seg = build_segment_from_runs(seg_id, &runs);
 
         {
+            #[cfg(nervusdb_verif)]
+            let _vh16 = crate::verif::acquire("pager");
             let mut pager = self.pager.write().unwrap();
             seg.persist(&mut pager)?;
             pager.sync()?;
@@ -385,6 +429,8 @@ impl GraphEngine {
         let epoch = self.manifest_epoch.load(Ordering::Relaxed) + 1;
 
         let new_segments = {
+            #[cfg(nervusdb_verif)]
+            crate::verif::touch("published_segments");
             let current = self.published_segments.read().unwrap().clone();
             let mut next = Vec::with_capacity(current.len() + 1);
             next.push(Arc::new(seg));
@@ -414,6 +460,8 @@ impl GraphEngine {
 
         let mut current_root = self.properties_root.load(Ordering::SeqCst);
         if !sink_node_props.is_empty() || !sink_edge_props.is_empty() {
+            #[cfg(nervusdb_verif)]
+            let _vh17 = crate::verif::acquire("pager");
             let mut pager = self.pager.write().unwrap();
             let mut tree = if current_root == 0 {
                 BTree::create(&mut pager)?
@@ -457,6 +505,8 @@ impl GraphEngine {
         // Statistics Collection - read directly from IdMap for accuracy
         let mut stats = crate::stats::GraphStatistics::default();
         {
+            #[cfg(nervusdb_verif)]
+            let _vh18 = crate::verif::acquire("idmap");
             let idmap = self.idmap.lock().unwrap();
             let node_labels = idmap.get_i2l_snapshot();
 
@@ -478,6 +528,8 @@ impl GraphEngine {
 
         let stats_root;
         {
+            #[cfg(nervusdb_verif)]
+            let _vh19 = crate::verif::acquire("pager");
             let mut pager = self.pager.write().unwrap();
             let encoded_stats = stats.encode();
             stats_root = crate::blob_store::BlobStore::write(&mut pager, &encoded_stats)?;
@@ -494,12 +546,16 @@ impl GraphEngine {
         // Everything written above (property tree, blobs, statistics) must be durable before
         // the manifest/checkpoint record allows recovery to skip the log.
         {
+            #[cfg(nervusdb_verif)]
+            let _vh20 = crate::verif::acquire("pager");
             let mut pager = self.pager.write().unwrap();
             pager.sync()?;
         }
 
         let system_txid = self.next_txid.fetch_add(1, Ordering::Relaxed);
         {
+            #[cfg(nervusdb_verif)]
+            let _vh21 = crate::verif::acquire("wal");
             let mut wal = self.wal.lock().unwrap();
             wal.append(&WalRecord::BeginTx { txid: system_txid })?;
             wal.append(&WalRecord::ManifestSwitch {
@@ -530,12 +586,16 @@ impl GraphEngine {
         #[cfg(nervusdb_verif)]
         crate::verif::point("compact.stats_root");
         {
+            #[cfg(nervusdb_verif)]
+            let _vh22 = crate::verif::acquire("published_runs");
             let mut cur_runs = self.published_runs.write().unwrap();
             *cur_runs = Arc::new(Vec::new());
         }
         #[cfg(nervusdb_verif)]
         crate::verif::point("compact.runs_cleared");
         {
+            #[cfg(nervusdb_verif)]
+            let _vh23 = crate::verif::acquire("published_segments");
             let mut cur_segs = self.published_segments.write().unwrap();
             *cur_segs = new_segments;
         }
@@ -559,17 +619,25 @@ impl GraphEngine {
     /// - the current manifest (`ManifestSwitch`) plus
     /// - a `Checkpoint` that allows recovery to skip older graph tx.
     pub fn checkpoint_on_close(&self) -> Result<()> {
+        #[cfg(nervusdb_verif)]
+        let _vh24 = crate::verif::acquire("write_lock");
         let _guard = self.write_lock.lock().unwrap();
 
+        #[cfg(nervusdb_verif)]
+        crate::verif::touch("published_runs");
         let runs = self.published_runs.read().unwrap().clone();
         if !runs.is_empty() {
             // Cannot compact WAL safely while L0 runs (esp. properties) are WAL-only.
             // Best-effort durability: flush NDB + WAL.
             {
+                #[cfg(nervusdb_verif)]
+                let _vh25 = crate::verif::acquire("pager");
                 let mut pager = self.pager.write().unwrap();
                 pager.sync()?;
             }
             {
+                #[cfg(nervusdb_verif)]
+                let _vh26 = crate::verif::acquire("wal");
                 let mut wal = self.wal.lock().unwrap();
                 wal.fsync()?;
             }
@@ -578,15 +646,21 @@ impl GraphEngine {
 
         // Ensure idmap/pages are durable before allowing recovery to skip old WAL.
         {
+            #[cfg(nervusdb_verif)]
+            let _vh27 = crate::verif::acquire("pager");
             let mut pager = self.pager.write().unwrap();
             pager.sync()?;
         }
 
         let labels = {
+            #[cfg(nervusdb_verif)]
+            let _vh28 = crate::verif::acquire("label_interner");
             let interner = self.label_interner.lock().unwrap();
             interner.snapshot()
         };
 
+        #[cfg(nervusdb_verif)]
+        crate::verif::touch("published_segments");
         let segments = self.published_segments.read().unwrap().clone();
         let pointers: Vec<SegmentPointer> = segments
             .iter()
@@ -626,6 +700,8 @@ impl GraphEngine {
         });
 
         {
+            #[cfg(nervusdb_verif)]
+            let _vh29 = crate::verif::acquire("wal");
             let mut wal = self.wal.lock().unwrap();
             wal.rewrite_as_snapshot(system_txid, ops)?;
             wal.fsync()?;
@@ -745,6 +821,8 @@ fn build_segment_from_runs(seg_id: SegmentId, runs: &Arc<Vec<Arc<L0Run>>>) -> Cs
 pub struct WriteTxn<'a> {
     engine: &'a GraphEngine,
     _guard: std::sync::MutexGuard<'a, ()>,
+    #[cfg(nervusdb_verif)]
+    _verif_held: crate::verif::Held,
     txid: u64,
     created_nodes: Vec<(ExternalId, LabelId, InternalNodeId)>,
     pending_label_additions: Vec<(InternalNodeId, LabelId)>,
@@ -768,6 +846,8 @@ impl<'a> WriteTxn<'a> {
         }
 
         let base_next = {
+            #[cfg(nervusdb_verif)]
+            let _vh30 = crate::verif::acquire("idmap");
             let idmap = self.engine.idmap.lock().unwrap();
             idmap.next_internal_id()
         };
@@ -871,6 +951,8 @@ impl<'a> WriteTxn<'a> {
             }
         }
 
+        #[cfg(nervusdb_verif)]
+        let _vh31 = crate::verif::acquire("label_interner");
         let interner = self.engine.label_interner.lock().unwrap();
         self.created_nodes
             .iter()
@@ -903,6 +985,8 @@ impl<'a> WriteTxn<'a> {
 
         // 1) Append WAL and fsync (durability Full by default).
         {
+            #[cfg(nervusdb_verif)]
+            let _vh32 = crate::verif::acquire("wal");
             let mut wal = self.engine.wal.lock().unwrap();
             wal.append(&WalRecord::BeginTx { txid: self.txid })?;
 
@@ -1016,6 +1100,8 @@ impl<'a> WriteTxn<'a> {
 
                 if let Some(lid) = label_id {
                     // Resolve Label Name
+                    #[cfg(nervusdb_verif)]
+                    crate::verif::touch("label_interner");
                     let label_name = self
                         .engine
                         .label_interner
@@ -1027,6 +1113,8 @@ impl<'a> WriteTxn<'a> {
                     if let Some(label_name) = label_name {
                         let index_name = format!("{}.{}", label_name, key);
                         // Check if index exists without holding the lock for long
+                        #[cfg(nervusdb_verif)]
+                        crate::verif::touch("index_catalog");
                         let has_index = self
                             .engine
                             .index_catalog
@@ -1063,6 +1151,8 @@ impl<'a> WriteTxn<'a> {
 
                 let label_id = snapshot.node_label(*node);
                 if let Some(lid) = label_id {
+                    #[cfg(nervusdb_verif)]
+                    crate::verif::touch("label_interner");
                     let label_name = self
                         .engine
                         .label_interner
@@ -1072,6 +1162,8 @@ impl<'a> WriteTxn<'a> {
                         .map(|s| s.to_string());
                     if let Some(label_name) = label_name {
                         let index_name = format!("{}.{}", label_name, key);
+                        #[cfg(nervusdb_verif)]
+                        crate::verif::touch("index_catalog");
                         let has_index = self
                             .engine
                             .index_catalog
@@ -1090,7 +1182,11 @@ impl<'a> WriteTxn<'a> {
 
             // Apply Index Updates
             if !index_ops.is_empty() {
+                #[cfg(nervusdb_verif)]
+                let _vh33 = crate::verif::acquire("index_catalog");
                 let mut catalog = self.engine.index_catalog.lock().unwrap();
+                #[cfg(nervusdb_verif)]
+                let _vh34 = crate::verif::acquire("pager");
                 let mut pager = self.engine.pager.write().unwrap();
 
                 for (op, node_id) in index_ops {
@@ -1153,7 +1249,11 @@ impl<'a> WriteTxn<'a> {
 
         // 3. Apply created nodes to IdMap / Node Index
         {
+            #[cfg(nervusdb_verif)]
+            let _vh35 = crate::verif::acquire("idmap");
             let mut idmap = self.engine.idmap.lock().unwrap();
+            #[cfg(nervusdb_verif)]
+            let _vh36 = crate::verif::acquire("pager");
             let mut pager = self.engine.pager.write().unwrap();
             for (external_id, label_id, internal_id) in self.created_nodes {
                 idmap.apply_create_node(&mut pager, external_id, label_id, internal_id)?;
